@@ -19,6 +19,7 @@ func main() {
 	probe.Init()
 	for _, cs := range probe.Plan() {
 		custom, sc := cs.Custom, cs.Sc
+		probe.SetCase(cs)
 		r := probe.New(key, sc, true)
 		opts := []sfiber.Option{sfiber.WithResourceExtractor(func(*fiber.Ctx) string { return r.Res })}
 		if custom {
